@@ -293,7 +293,7 @@ func c28MetaArgs(res string, nas int, cid string, flag bool, csec, dcid, dcsec s
 
 func c28Gen(g *Gen) {
 	r := g.Rng
-	n := g.N(20000, 400000)
+	n := g.N(10000, 200000)
 	for i := 0; i < n; i++ {
 		pEmpty := Pick(r, []int{20, 50, 50, 80})
 		cid, csec, dcid, dcsec := c28GenField(r, pEmpty), c28GenField(r, pEmpty), c28GenField(r, pEmpty), c28GenField(r, pEmpty)
